@@ -956,3 +956,278 @@ def c12(run):
                 "equals the original under them; returned components have the documented shape; the library's composition equals the "
                 "documented formula; components of TU matrices are TU. compose: operand pairs up to 4x4 in characteristic 2 and 3 with valid "
                 "and invalid special lines: result equals the formula, invalid shapes give an error and no matrix. Non-trivial = judged ok.")
+
+
+# ------------------------------------------------------------------------------------------------------------------
+# C03 / C04 decomposition trees
+# ------------------------------------------------------------------------------------------------------------------
+
+R10A = [1,1,0,0,1, 1,1,1,0,0, 0,1,1,1,0, 0,0,1,1,1, 1,0,0,1,1]
+R10B = [1,1,1,1,1, 1,1,1,0,0, 1,0,1,1,0, 1,0,0,1,1, 1,1,0,0,1]
+R10T = [1,-1,0,0,-1, -1,1,-1,0,0, 0,-1,1,-1,0, 0,0,-1,1,-1, -1,0,0,-1,1]
+R12T = [1,0,1,1,0,0, 0,1,1,1,0,0, 1,0,1,0,1,1, 0,-1,0,-1,1,1, 1,0,1,0,1,0, 0,-1,0,-1,0,1]
+C04_TAGS = r"^tree:(flag|flags|graph-cert|r10|minor)"
+
+
+def permuted(rng, m, n, e):
+    rp = list(range(m)); cp = list(range(n)); rng.shuffle(rp); rng.shuffle(cp)
+    return [e[i * n + j] for i in rp for j in cp]
+
+
+def scaled(rng, m, n, e):
+    rs = [rng.choice((1, -1)) for _ in range(m)]; cs = [rng.choice((1, -1)) for _ in range(n)]
+    return [e[i * n + j] * rs[i] * cs[j] for i in range(m) for j in range(n)]
+
+
+def base_block(rng, ternary):
+    """a (probably) regular building block: network / conetwork matrix, R10, R12"""
+    k = rng.randrange(6)
+    if k == 0:
+        e = R10T if ternary else rng.choice((R10A, R10B)); m = n = 5
+    elif k == 1:
+        e = R12T if ternary else [abs(x) for x in R12T]; m = n = 6
+    else:
+        (m, n, e) = graph_instances(rng, 1, rng.choice((6, 10, 16)), True)[0]
+        if not ternary: e = [abs(x) for x in e]
+        if k == 2:      # conetwork: transpose
+            e = [e[i * n + j] for j in range(n) for i in range(m)]; m, n = n, m
+    e = permuted(rng, m, n, e)
+    if ternary: e = scaled(rng, m, n, e)
+    return m, n, e
+
+
+def sum_blocks(rng, ternary, depth):
+    """1- and 2-sums of building blocks (generator side only)"""
+    m, n, e = base_block(rng, ternary)
+    for _ in range(depth):
+        m2, n2, e2 = base_block(rng, ternary)
+        if m == 0 or n == 0 or m2 == 0 or n2 == 0 or rng.random() < 0.4:
+            # 1-sum
+            rows = [e[i * n:(i + 1) * n] + [0] * n2 for i in range(m)] + [[0] * n + e2[i * n2:(i + 1) * n2] for i in range(m2)]
+            m, n = m + m2, n + n2
+        else:
+            # 2-sum: M1 = [A; c^T] (c^T last row of first), M2 = [d D] (d first column of second)
+            c = e[(m - 1) * n: m * n]; d = [e2[i * n2] for i in range(m2)]
+            A = [e[i * n:(i + 1) * n] for i in range(m - 1)]
+            D = [e2[i * n2 + 1:(i + 1) * n2] for i in range(m2)]
+            rows = [A[i] + [0] * (n2 - 1) for i in range(m - 1)] + [[d[i] * c[j] for j in range(n)] + D[i] for i in range(m2)]
+            m, n = m - 1 + m2, n + n2 - 1
+        e = [x for r in rows for x in r]
+        e = permuted(rng, m, n, e)
+    return m, n, e
+
+
+def tree_ops(run):
+    quick = run.tier == "quick"
+    rng = run.rng
+    lines = []
+    base = DEFAULT_MASK | WANT_TREE
+    # small exhaustive-ish domains with trees
+    for (m, n) in [(2, 2), (2, 3), (3, 2), (3, 3)]:
+        for e in all_mats(m, n, (-1, 0, 1)):
+            if rng.random() < (0.25 if quick else 1.0):
+                lines.append("tu %d %s" % (base, mat_tokens(m, n, e)))
+    for _ in range(3000 if quick else 60000):
+        m, n = rng.randint(3, 6), rng.randint(3, 6)
+        e = rand_mat(rng, m, n, (1,), rng.choice((0.4, 0.6)))
+        mk = rng.choice(option_masks(rng, "quick")) | WANT_TREE
+        lines.append("regular %d %s" % (mk, mat_tokens(m, n, e)))
+        e2 = [x * rng.choice((1, -1)) for x in e]
+        lines.append("tu %d %s" % ((mk | B_TERNARY) & ~3, mat_tokens(m, n, e2)))
+    run.batch("small-with-trees", lines, "plain")
+    big = []
+    strat = [0, 1, 2, 3, 4]
+    for _ in range(600 if quick else 12000):
+        ternary = rng.random() < 0.5
+        m, n, e = sum_blocks(rng, ternary, rng.randint(0, 3))
+        mk = DEFAULT_MASK | WANT_TREE | strategy(rng.choice(strat))
+        for b in (B_LEAFGRAPHS, B_ALLGRAPHS, B_PLANAR, B_STOP_IRR):
+            if rng.random() < 0.3: mk |= b
+        if rng.random() < 0.1: mk ^= B_PREFER
+        if rng.random() < 0.2:
+            # corruption: flip one entry
+            if m * n:
+                k = rng.randrange(m * n); e = list(e); e[k] = (0 if e[k] else 1)
+        if ternary:
+            big.append("tu %d %s" % (mk | B_TERNARY, mat_tokens(m, n, e)))
+        else:
+            big.append("regular %d %s" % (mk, mat_tokens(m, n, e)))
+    run.batch("sums-of-blocks", big, "asan")
+    hist = []
+    for _ in range(300 if quick else 6000):
+        ternary = rng.randint(0, 1)
+        m, n, e = sum_blocks(rng, bool(ternary), rng.randint(0, 2))
+        mk0 = DEFAULT_MASK | strategy(rng.choice(strat)) | rng.choice((0, B_STOP_IRR, B_STOP_NG, B_STOP_NCG, B_STOP_NEITHER))
+        k = rng.randint(1, 4)
+        steps = []
+        for _ in range(k):
+            act = "C" if ternary or rng.random() < 0.5 else "R"
+            if rng.random() < 0.8: act = act.lower()      # lower case: only unknown leaves of the partial tree are targets
+            mk = DEFAULT_MASK | strategy(rng.choice(strat)) | (B_LEAFGRAPHS if rng.random() < .3 else 0)
+            steps.append("%s %d %d" % (act, mk, rng.randrange(50)))
+        hist.append("treeseq %d %d %s %d %s" % (ternary, mk0, mat_tokens(m, n, e), k, " ".join(steps)))
+    run.batch("complete-refine-histories", hist, "asan")
+    return dict(extra={})
+
+
+@check("C03")
+def c03(run):
+    run.ignore_tags = C04_TAGS
+    tree_ops(run)
+    return dict(rule="every tree handed out through proot by CMRtuTest / CMRregularTest (small exhaustive/sampled domains, seeded 3x3..6x6 "
+                "matrices under option masks; 1- and 2-sums of network, conetwork, R10 and R12 blocks under random line permutations, "
+                "scalings and single-entry corruptions with every decomposition strategy) and after seeded histories of "
+                "CMRtuCompleteDecomposition / CMRregularCompleteDecomposition / CMRregularRefineDecomposition on nodes of partial trees is "
+                "serialised node by node (types, maps, special lines, pivots, reductions, raw CSR matrices) and every node is checked by "
+                "checkRecompose: arities, 1-sum block partition, 2-/Delta-/Y-/3-sum via the documented composition formulas, pivot children "
+                "= recorded pivots, series-parallel children = recorded valid reductions. Non-trivial = a tree whose every node passed; "
+                "distinct by op line; the judge tag lists node types per tree.")
+
+
+@check("C04")
+def c04(run):
+    run.ignore_tags = r"^tree:(?!flag|flags|graph-cert|r10|minor)"
+    tree_ops(run)
+    return dict(rule="the trees of the C03 run: every node's flags and certificates are checked by checkFlags: stored graph/forest/coforest/"
+                "arc reversals multiply out to the node's matrix (transpose for cographs), R10 nodes are row/column permutations of a "
+                "representation matrix of R10, stored determinant minors have |det|>=2 inside the node's matrix, positive flags of inner nodes "
+                "need positive flags at all children, and at nodes up to 6x6 (regularity) resp. 5 rows (graphicness) the flags are compared "
+                "with the brute-force oracles. Non-trivial = tree fully passed; distinct by op line.")
+
+
+# ------------------------------------------------------------------------------------------------------------------
+# C18 time limits: injection at every clock read
+# ------------------------------------------------------------------------------------------------------------------
+
+def split_result(res):
+    """'ok payload ;; trailer' -> (status, payload tokens, reads)"""
+    body, _, trailer = res.partition(" ;; ")
+    toks = body.split(" ")
+    m = re.search(r"clk=(\d+),(\d+)", trailer)
+    return toks[0], [t for t in toks[1:] if t], (int(m.group(1)) if m else 0)
+
+
+def timelimited_ops(rng, quick):
+    ops = []
+    masks = option_masks(rng, "quick", algos=(0, 1, 2))
+    n = 40 if quick else 400
+    for _ in range(n):
+        m, k = rng.randint(3, 6), rng.randint(3, 6)
+        tern = rand_mat(rng, m, k, (1, -1), rng.choice((0.4, 0.6)))
+        binm = [abs(x) for x in tern]
+        ops.append("tu %d %s" % ((DEFAULT_MASK & ~3) | rng.choice((0, 1, 2)) | rng.choice((0, WANT_SUB, WANT_TREE, WANT_SUB | WANT_TREE)) | strategy(rng.randrange(5)), mat_tokens(m, k, tern)))
+        ops.append("regular %d %s" % (DEFAULT_MASK | rng.choice((0, WANT_TREE)) | strategy(rng.randrange(5)), mat_tokens(m, k, binm)))
+        ops.append("graphic %d 1 1 %s" % (rng.randint(0, 1), mat_tokens(m, k, binm)))
+        ops.append("network %d 1 1 %s" % (rng.randint(0, 1), mat_tokens(m, k, tern)))
+        ops.append("camionx 1 %s" % mat_tokens(m, k, tern))
+        ops.append("sp %s %s %d -1 %s" % ("ter", rng.choice(("test", "dec")), rng.choice((15, 31, 7, 1)), mat_tokens(m, k, tern)))
+        ops.append("sp %s %s %d -1 %s" % ("bin", rng.choice(("test", "dec")), rng.choice((15, 31, 7, 1)), mat_tokens(m, k, binm)))
+        ops.append("balanced %d %d 0 1 %s" % (rng.choice((0, 1)), rng.randint(0, 1), mat_tokens(m, k, tern)))
+        if m <= 4 and k <= 4:
+            ops.append("ctu %d %s" % (DEFAULT_MASK, mat_tokens(m, k, binm)))
+        e = rand_mat(rng, min(m, 4), min(k, 4), (-2, -1, 1, 1, 2, 3), 0.7)
+        ops.append("equimod %s 0 %s" % (rng.choice(("e", "es", "u", "us")), mat_tokens(min(m, 4), min(k, 4), e)))
+    for (mm, nn, e) in graph_instances(rng, 10 if quick else 100, 40, True):
+        ops.append("tu %d %s" % (DEFAULT_MASK | WANT_TREE, mat_tokens(mm, nn, e)))
+        ops.append("network 0 1 1 %s" % mat_tokens(mm, nn, e))
+    for _ in range(10 if quick else 100):
+        mm, nn, e = sum_blocks(rng, True, rng.randint(1, 2))
+        ops.append("tu %d %s" % (DEFAULT_MASK | WANT_TREE | strategy(rng.randrange(5)), mat_tokens(mm, nn, e)))
+        ops.append("treeseq 1 %d %s 1 c %d 3" % (DEFAULT_MASK | B_STOP_IRR, mat_tokens(mm, nn, e), DEFAULT_MASK))
+    return ops
+
+
+@check("C18")
+def c18(run):
+    quick = run.tier == "quick"
+    rng = run.rng
+    ops = timelimited_ops(rng, quick)
+    # phase 1: unlimited runs -> reference answers and number of clock reads
+    ref = run.batch("unlimited-reference", ops, "asan")
+    inj = []
+    per_op_cap = 40 if quick else 400
+    total_reads = 0
+    for (op, res, verdict) in ref:
+        status, payload, reads = split_result(res)
+        if status != "ok" or verdict.startswith("FAIL"):
+            continue
+        total_reads += reads
+        ks = list(range(1, reads + 1))
+        if len(ks) > per_op_cap:
+            ks = sorted(rng.sample(ks, per_op_cap - 10) + ks[:5] + ks[-5:])
+        exp = "~".join(payload)
+        for k in ks:
+            inj.append("@fresh @clk=%d @expect=%s %s" % (k, exp, op))
+            inj.append("@expect=%s %s" % (status + "~" + exp, op))      # same environment, no limit: must still give the unlimited answer
+    O.TIMEOUT_SITES.clear()
+    run.batch("inject-at-every-clock-read", inj, "asan")
+    sites = sorted(O.TIMEOUT_SITES)
+    return dict(rule="for each time-limited entry point (TU x3 algorithms with/without submatrix and tree, regular, complete-decomposition "
+                "history, graphic, network, Camion, SP x4, balanced, CTU, equimodular x4) and each seeded input: one unlimited run counts the "
+                "clock reads N; then for every k<=N (at most %d per input, including the first and last five) a run in a fresh environment with "
+                "the clock jumping forward at the k-th read: status must be OKAY with the identical result or TIMEOUT with no result object, "
+                "scratch stack balanced, no leak at exit (LeakSanitizer), and the same environment must then give the unlimited answer without "
+                "a limit. Non-trivial = judged ok; distinct by op line." % per_op_cap,
+                extra={"clock_reads_unlimited_total": total_reads, "injected_runs": len(inj) // 2,
+                       "distinct_timeout_return_sites_fired": len(sites), "timeout_sites": sites},
+                assumptions=["the cleanup on the timeout exits is enumerated by fault injection, not proved"])
+
+
+# ------------------------------------------------------------------------------------------------------------------
+# C19 purity: inputs untouched, results independent of history, scratch contents and threads
+# ------------------------------------------------------------------------------------------------------------------
+
+def strip_trailer(res):
+    body, _, _ = res.partition(" ;; ")
+    return "~".join(t for t in body.split(" ") if t)
+
+
+@check("C19")
+def c19(run):
+    quick = run.tier == "quick"
+    rng = run.rng
+    ops = [o for o in timelimited_ops(rng, quick) if not o.startswith("treeseq")]
+    ops += [o for o in mixed_ops(rng, 300 if quick else 5000) if not o.startswith("stack")]
+    if quick:
+        ops = rng.sample(ops, min(len(ops), 500))
+    # reference: every op in a fresh environment, scratch chunks filled with 0xCB
+    ref = run.batch("reference-fresh-env", ["@fresh " + o for o in ops], "asan")
+    expect = {}
+    for (line, res, verdict) in ref:
+        if res.startswith("crash") or verdict.startswith("FAIL") or verdict.startswith("bad-op"):
+            continue
+        expect[line[len("@fresh "):]] = strip_trailer(res)
+    good = [o for o in ops if o in expect]
+    def tagged(o):
+        return "@expect=%s %s" % (expect[o], o)
+    # A: one environment for all ops, scratch filled with 0x00
+    run.batch("one-env-fill-00", [tagged(o) for o in good], "asan", args=("--fill", "0"))
+    # B: another order, interleaved with calls that end in errors and timeouts, scratch filled with 0xFF
+    order = list(good); rng.shuffle(order)
+    junk = ["pivot 3 1 2 2 0 1 1 1 1 0 0", "compose D 3 2 3 1 1 1 0 1 1 2 3 1 1 1 0 1 1 0 0 1 0 0 1", "parse dense c 3120312061",
+            "@clk=2 tu 6668 4 4 1 1 0 0 0 1 1 0 0 0 1 1 1 0 0 1", "equimod e 0 2 2 2147483647 2147483647 2147483647 1",
+            "@clk=1 ctu 6668 3 3 1 1 0 0 1 1 1 0 1", "balanced 2 1 0 1 2 2 1 1 1 1"]
+    b = []
+    for o in order:
+        if rng.random() < 0.5:
+            b.append("@junk " + rng.choice(junk))
+        b.append(tagged(o))
+    run.batch("shuffled-with-errors-fill-FF", b, "asan", args=("--fill", "255"))
+    # C: the same call three times in a row
+    c = []
+    for o in rng.sample(good, min(len(good), 200 if quick else 2000)):
+        c += [tagged(o)] * 3
+    run.batch("repeated-3x", c, "asan", args=("--fill", "85"))
+    # D: concurrent environments on 8 threads under ThreadSanitizer; results must equal the single-threaded reference
+    thr = [tagged(o) for o in rng.sample(good, min(len(good), 150 if quick else 1500))]
+    try:
+        run.batch("tsan-8-threads", thr, "tsan", args=("--threads", "8", "--fill", "203"))
+    except cmrbuild.BuildError:
+        raise
+    return dict(rule="every op of a seeded mix of all op families (input matrices are checksummed before and after each call: 'in=' in the "
+                "harness trailer) is first run in a fresh environment (scratch chunks filled with 0xCB) and then (A) on one shared "
+                "environment with scratch fill 0x00, (B) in another order interleaved with calls ending in errors and injected timeouts, fill "
+                "0xFF, (C) three times in a row, fill 0x55, (D) concurrently on 8 threads with one environment each under ThreadSanitizer: the "
+                "status and the complete canonical payload (verdicts, certificates, trees) must be identical to the reference, and no race may "
+                "be reported. Non-trivial = judged ok; distinct by op line.",
+                assumptions=["thread schedules are sampled, not enumerated", "the static buffers of CMRelementString / CMRspReductionString (documented fallback when NULL is passed) are not exercised by recognition and are outside the model"])
